@@ -193,3 +193,14 @@ Lemma code_on_these_schedules :
      [WAppend 2; WSetHW 0; WRoFlag true; WRoNotify; WSync 0%nat; WDeliver 0%nat; WWait 0%nat; WSetHW 1; WSync 0%nat; WDeliver 0%nat; WWait 0%nat]))
   = [(2, Some 1, false)].
 Proof. vm_compute. split; reflexivity. Qed.
+
+(* progress: a reader that is neither parked nor ended and whose next message is covered by the HW
+   delivers it after one look at the HW *)
+Theorem ro_progress_enabled s i r : nth_error (w_readers s) i = Some r -> ractive r = true -> n_next r <= w_hw s ->
+  exists r', nth_error (w_readers (wstep wcode (wstep wcode s (WSync i)) (WDeliver i))) i = Some r' /\ n_next r' = n_next r + 1.
+Proof.
+  intros Hn Ha Hle. cbn [wstep w_readers w_hw w_newest w_ro w_pending].
+  erewrite nth_wupd; [|erewrite nth_wupd; [reflexivity|exact Hn]]. rewrite Ha.
+  unfold ractive at 1. cbn [n_parked n_ended n_next n_seen negb andb].
+  destruct (Z.leb_spec (n_next r) (w_hw s)); [|lia]. eexists. split; [reflexivity|reflexivity].
+Qed.
